@@ -617,8 +617,26 @@ def abandoned_blocks():
                 yield [b1([["probe", "a"], b2([["probe", "b"], f]), ["probe", "a"]])] + tail
 
 
+# property names that are also words of the expression grammar: after a dot (and as a quoted key) they are names like any other
+WORD_KEYS = ["limit", "offset", "for", "if", "contains", "empty", "with", "in", "and", "or", "not", "true", "false", "nil", "null", "blank", "continue", "reversed", "cols", "as", "required", "else"]
+
+
+def word_key_paths(ctx: core.Ctx):
+    data = {"d": {w: "V-" + w for w in WORD_KEYS}, "xs": [{w: i for i, w in enumerate(WORD_KEYS)}]}
+    data["d"]["inner"] = dict(data["d"])
+    k = 0
+    for w in WORD_KEYS:
+        for segs in (["d", w], ["d", "inner", w], ["xs", 0, w], ["d", [w + "_name"]], ["xs", "first", w], ["d", w, "size"]):
+            k += 1
+            if k % ctx.nshards != ctx.shard:
+                continue
+            d2 = dict(data, **{w + "_name": w})
+            yield {"kind": "path", "segs": segs, "data": V.enc(d2), "flags": {}, "async": k % 3 == 0}
+
+
 def cases(ctx: core.Ctx):
     rng = ctx.rng("cases")
+    yield from word_key_paths(ctx)
     yield from enum_paths(ctx)
     layers = {"args": {"a": "ARG_a", "c": "ARG_c"}, "matter": {"b": "MAT_b"}, "tglobals": {"a": "TG_a", "forloop": "TG_forloop"}, "eglobals": {"b": "EG_b"}}
     for gi, ops in enumerate(abandoned_blocks()):
